@@ -475,6 +475,38 @@ static void buffer_store_case(seqx::Runner &R) {
     R.end(true);
 }
 
+// ------------------------------------------------------------------------------------------------ family F9: callback promise in a storage
+// make_promise<T>(fn, storage): the callback future lives in the storage block (the frame-placement path without a coroutine)
+static void make_promise_storage_case(seqx::Runner &R, int outcome) {
+    std::ostringstream d;
+    d << "F9 make_promise(fn, storage) outcome=" << outcome;
+    if (!R.next_case_named(d.str())) return;
+    R.begin(d.str());
+    uint64_t n = 0;
+    int fired = 0;
+    std::exception_ptr prebuilt = std::make_exception_ptr(TestError());
+    {
+        Store st;
+        st.alloc(256);  // warm
+        region_begin();
+        for (int round = 0; round < 2; round++) {
+            cocls::promise<int> p = cocls::make_promise<int>([&fired](cocls::future<int> &) { fired++; }, st);
+            switch (outcome) {
+                case 0: p(5); break;
+                case 1: p(prebuilt); break;
+                default: p(cocls::drop); break;
+            }
+        }
+        n = region_allocs();
+    }
+    if (fired != 2) R.fail("noalloc/harness", "callback fired %d times in two rounds", fired);
+    if (n) R.fail("noalloc/make-promise-storage", "%lu dynamic allocations for callback promises placed in a warm storage", (unsigned long)n);
+    R.step();
+    R.state(seqx::hash_str(d.str()));
+    R.outcome(n);
+    R.end(true);
+}
+
 }  // namespace
 
 void seqx_run(seqx::Runner &R, const std::string &tier) {
@@ -498,6 +530,7 @@ void seqx_run(seqx::Runner &R, const std::string &tier) {
                     }
     mutex_case(R);
     buffer_store_case(R);
+    for (int out = 0; out < 3; out++) make_promise_storage_case(R, out);
     moved_store_case(R, 0);
     moved_store_case(R, 1);
     for (int out = 0; out < 3; out++)
